@@ -26,6 +26,7 @@ macro "ag_tac" : tactic => `(tactic| (splits <;> simp_all))
 /-! ### functions that do not touch `agents` -/
 
 @[simp] theorem emit_agents' (s : State) (e : String) : (s.emit e).agents = s.agents := rfl
+@[simp] theorem emitEv_agents' (s : State) (k : EvKind) (r : String) : (s.emitEv k r).agents = s.agents := rfl
 @[simp] theorem emitCaller_agents' (s : State) (c : Nat) (e b : String) : (s.emitCaller c e b).agents = s.agents := rfl
 @[simp] theorem storeFatal_agents (s : State) (t : String) : (storeFatal s t).agents = s.agents := by unfold storeFatal; ag_tac
 @[simp] theorem cancelFlows_agents (s : State) (e : CErr) : (cancelFlows s e).agents = s.agents := by unfold cancelFlows; ag_tac
@@ -114,7 +115,7 @@ theorem foldl_emit_agents {α : Type} (l : List α) (f : α → String) (s : Sta
 @[simp] theorem initTailEvents_agents (s : State) (ph : Phase) (st : String) : (initTailEvents s ph st).agents = s.agents := by
   unfold initTailEvents
   dsimp only
-  rw [emit_agents', foldl_emit_agents]
+  rw [emitEv_agents', foldl_emit_agents]
   split <;> rfl
 @[simp] theorem disarm_agents (s : State) : (disarmShutdownTimers s).agents = s.agents := rfl
 @[simp] theorem resetTail_agents (s : State) (n : Nat) : (resetTail s n).agents = s.agents := by unfold resetTail; ag_tac
